@@ -331,21 +331,27 @@ class TaskManager(rpu.ClientComponent):
 
                 self._log.debug('pilot %s is final', pid)
 
+                # check and update under the lock which `_update_tasks` holds
+                # while it applies state notifications: a task must not become
+                # DONE between our check and our update
                 tasks = list()
-                for task in self._tasks.values():
+                with self._tasks_lock:
+                    for task in self._tasks.values():
 
-                    # only tasks which are bound to this pilot and which are
-                    # not yet final are affected
-                    if task.pilot != pid or task.state in rps.FINAL:
-                        continue
+                        # only tasks which are bound to this pilot and which
+                        # are not yet final are affected
+                        if task.pilot != pid or task.state in rps.FINAL:
+                            continue
 
-                    update = {'uid'             : task.uid,
-                              'exception'       : 'RuntimeError("pilot died")',
-                              'exception_detail': 'pilot %s is final' % pid,
-                              'state'           : rps.FAILED}
+                        update = {'uid'             : task.uid,
+                                  'exception'       :
+                                                  'RuntimeError("pilot died")',
+                                  'exception_detail':
+                                                  'pilot %s is final' % pid,
+                                  'state'           : rps.FAILED}
 
-                    task._update(update)
-                    tasks.append(task.as_dict())
+                        task._update(update)
+                        tasks.append(task.as_dict())
 
                 # final tasks are not pushed
                 self.advance(tasks, publish=True, push=False)
